@@ -1,6 +1,8 @@
 import GufoSnmp.Lemmas.Minimal
 import GufoSnmp.Lemmas.OidLemmas
 import GufoSnmp.Model.PyClient
+import GufoSnmp.Props.C09
+import GufoSnmp.Props.C13
 /-!
 # C03 — requests on the wire are exactly what the caller asked for
 
@@ -122,5 +124,124 @@ theorem fetch_policy (isV1 allowBulk : Bool) :
 theorem max_repetitions_policy (m : Int) (hm : m ≠ 0) (dflt : Int) :
     Py.effectiveMaxRep (some m) dflt = m ∧ Py.effectiveMaxRep none dflt = dflt := by
   simp [Py.effectiveMaxRep, hm]
+
+/-! ## v3 -/
+
+/-- the message a v3 call denotes for a session without privacy: the session's credentials and
+engine state, the masked message id, the probe flag, and the scoped PDU `(engine id, "", pdu)` -/
+def v3Request (s : V3Session) (pdu : Pdu) (rawMsg : Int) : V3Msg :=
+  v3MsgOf { s with msgId := maskId rawMsg }
+    (match pdu with | .getRequest _ vars => vars.isEmpty | _ => false) [] (.plaintext ⟨s.engineId, pdu⟩)
+
+/-- what an independent decoder must read back from that message -/
+theorem v3Request_fields (s : V3Session) (pdu : Pdu) (rawMsg : Int) :
+    (v3Request s pdu rawMsg).msgId = maskId rawMsg ∧
+    0 ≤ (v3Request s pdu rawMsg).msgId ∧ (v3Request s pdu rawMsg).msgId < 2 ^ 31 ∧
+    (v3Request s pdu rawMsg).usm.engineId = s.engineId ∧ (v3Request s pdu rawMsg).usm.engineBoots = s.engineBoots ∧
+    (v3Request s pdu rawMsg).usm.engineTime = s.engineTime ∧ (v3Request s pdu rawMsg).usm.userName = s.userName ∧
+    (v3Request s pdu rawMsg).flagAuth = s.authKey.hasAuth ∧ (v3Request s pdu rawMsg).flagPriv = s.privKey.hasPriv ∧
+    (v3Request s pdu rawMsg).data = .plaintext ⟨s.engineId, pdu⟩ :=
+  ⟨rfl, (reqid_range rawMsg).1, (reqid_range rawMsg).2, rfl, rfl, rfl, rfl, rfl, rfl, rfl⟩
+
+/-- **C03.wire_v3**: a v3 session without privacy puts on the wire exactly `encV3` (the independent
+minimal encoding of version 3, msgID, msgMaxSize, msgFlags, USM model, USM parameters and the
+scoped PDU) of `v3Request`, with the 12 placeholder octets replaced by the HMAC when the session
+signs — whatever buffer the pool hands out; a message that does not fit raises and sends nothing -/
+theorem wire_v3 (D : Digests) (hD : D.WF) (C : Ciphers) (s : V3Session) (hnp : s.privKey.hasPriv = false)
+    (hk : ∀ alg key, s.authKey = .digest alg key → key.length = alg.keySize)
+    (pdu : Pdu) (rawMsg : Int) (buf : Buf) (hb : buf.cells = []) (d enc : Bytes)
+    (hd : encScoped ⟨s.engineId, pdu⟩ = some d) (he : encV3 (v3Request s pdu rawMsg) = some enc) :
+    (pushPduV3 D C s pdu rawMsg buf).2 =
+      if enc.length ≤ Buf.cap then
+        (match s.authKey with
+         | .noAuth => .ok enc
+         | .digest alg key =>
+           .ok (v3Prefix (v3Request s pdu rawMsg) d ++
+                (Spec.hmac96 (D.hash alg) key enc ++ v3Suffix (v3Request s pdu rawMsg) d)))
+      else .err .OutOfBuffer := by
+  rw [C13.scoped_and_probe D C s pdu rawMsg buf hnp]
+  have hmd : encMsgData (v3Request s pdu rawMsg).data = some d := hd
+  show finishV3 D s.authKey (v3Request s pdu rawMsg) buf = _
+  split
+  · rename_i hfit
+    cases hak : s.authKey with
+    | noAuth =>
+      simp only
+      exact (C09.noauth_wire D (v3Request s pdu rawMsg) buf hb d enc hmd he hfit).1
+    | digest alg key =>
+      simp only
+      have hph : (v3Request s pdu rawMsg).usm.authParams = List.replicate 12 0 :=
+        (C09.msg_flags { s with msgId := maskId rawMsg } _ [] _).2.1 alg key hak
+      exact (C09.auth_wire D hD alg key (hk alg key hak) (v3Request s pdu rawMsg) hph buf hb d enc hmd he hfit).1
+  · rename_i hfit
+    exact C09.finish_oob D s.authKey (v3Request s pdu rawMsg) buf hb d enc hmd he hfit
+
+theorem encrypt_hasPriv (C : Ciphers) (k : PrivKey) (sp : ScopedPdu) (boots time : Nat) :
+    (k.encrypt C sp boots time).1.hasPriv = k.hasPriv := by
+  cases k with
+  | noPriv => rfl
+  | des key preIv salt buf =>
+    simp only [PrivKey.encrypt]
+    cases privSerialize desBlockSize buf sp with
+    | ok p => rfl
+    | err e => rfl
+    | panic w => rfl
+  | aes key salt buf =>
+    simp only [PrivKey.encrypt]
+    cases privSerialize aesBlockSize buf sp with
+    | ok p => rfl
+    | err e => rfl
+    | panic w => rfl
+
+/-- the message of a session WITH privacy, given what the cipher returned -/
+def v3RequestPriv (s : V3Session) (pdu : Pdu) (rawMsg : Int) (ct pp : Bytes) : V3Msg :=
+  v3MsgOf { s with msgId := maskId rawMsg }
+    (match pdu with | .getRequest _ vars => vars.isEmpty | _ => false) pp (.encrypted ct)
+
+/-- **C03.wire_v3_priv**: with a privacy key, msgData is the OCTET STRING of the ciphertext the key
+object returned for the scoped PDU `(engine id, "", pdu)` under the session's boots / time
+(`C11.des_encrypt` / `C11.aes_encrypt` say what that ciphertext is), msgPrivacyParameters is the
+transmitted salt, everything else as in `wire_v3` -/
+theorem wire_v3_priv (D : Digests) (hD : D.WF) (C : Ciphers) (s : V3Session) (hp : s.privKey.hasPriv = true)
+    (hk : ∀ alg key, s.authKey = .digest alg key → key.length = alg.keySize)
+    (pdu : Pdu) (rawMsg : Int) (buf : Buf) (hb : buf.cells = []) (ct pp enc : Bytes)
+    (hc : (s.privKey.encrypt C ⟨s.engineId, pdu⟩ (asU32 s.engineBoots) (asU32 s.engineTime)).2 = .ok (ct, pp))
+    (he : encV3 (v3RequestPriv s pdu rawMsg ct pp) = some enc) :
+    (pushPduV3 D C s pdu rawMsg buf).2 =
+      if enc.length ≤ Buf.cap then
+        (match s.authKey with
+         | .noAuth => .ok enc
+         | .digest alg key =>
+           .ok (v3Prefix (v3RequestPriv s pdu rawMsg ct pp) (tlvBytes (UInt8.ofNat tagOctetString) ct) ++
+                (Spec.hmac96 (D.hash alg) key enc ++
+                 v3Suffix (v3RequestPriv s pdu rawMsg ct pp) (tlvBytes (UInt8.ofNat tagOctetString) ct))))
+      else .err .OutOfBuffer := by
+  have hfin : (pushPduV3 D C s pdu rawMsg buf).2 =
+      finishV3 D s.authKey (v3RequestPriv s pdu rawMsg ct pp) buf := by
+    unfold pushPduV3
+    simp only [hp, if_true]
+    have hhp := encrypt_hasPriv C s.privKey ⟨s.engineId, pdu⟩ (asU32 s.engineBoots) (asU32 s.engineTime)
+    cases hres : s.privKey.encrypt C ⟨s.engineId, pdu⟩ (asU32 s.engineBoots) (asU32 s.engineTime) with
+    | mk pk' r =>
+      rw [hres] at hc hhp
+      simp only at hc hhp
+      subst hc
+      simp only [v3RequestPriv, v3MsgOf, hhp]
+      rfl
+  rw [hfin]
+  have hmd : encMsgData (v3RequestPriv s pdu rawMsg ct pp).data = some (tlvBytes (UInt8.ofNat tagOctetString) ct) := rfl
+  split
+  · rename_i hfit
+    cases hak : s.authKey with
+    | noAuth =>
+      simp only
+      exact (C09.noauth_wire D _ buf hb _ enc hmd he hfit).1
+    | digest alg key =>
+      simp only
+      have hph : (v3RequestPriv s pdu rawMsg ct pp).usm.authParams = List.replicate 12 0 :=
+        (C09.msg_flags { s with msgId := maskId rawMsg } _ pp _).2.1 alg key hak
+      exact (C09.auth_wire D hD alg key (hk alg key hak) _ hph buf hb _ enc hmd he hfit).1
+  · rename_i hfit
+    exact C09.finish_oob D s.authKey _ buf hb _ enc hmd he hfit
 
 end GufoSnmp.C03
